@@ -42,6 +42,7 @@
 #include <yaclib/fault/config.hpp>
 #include <yaclib/fault/detail/atomic.hpp>
 #include <yaclib/fault/detail/fiber/bidirectional_intrusive_list.hpp>
+#include <yaclib/fault/detail/fiber/fiber.hpp>
 #include <yaclib/fault/detail/fiber/queue.hpp>
 #include <yaclib/fault/detail/fiber/scheduler.hpp>
 #include <yaclib/fault/inject.hpp>
@@ -412,6 +413,41 @@ void ProgTimed(Env& env) {
   env.result += r + ";";
 }
 
+// fibers with exactly the same virtual wake-up time: a common sleep_until deadline, and periodic workers on a common
+// grid (this_thread::sleep_until has no jitter).  Which of them runs first is decided by the scheduler alone (insertion
+// order into the sleep map + the seeded picks) and is client visible through the order of the events and the CAS retries.
+void ProgSleep(Env& env) {
+  yaclib_std::atomic<int> word{0};
+  std::string order;
+  const auto t0 = yaclib_std::chrono::steady_clock::now();
+  std::vector<yaclib_std::thread> ts;
+  const int sleepers = 3 + env.size;
+  for (int k = 0; k < sleepers; ++k) {
+    ts.emplace_back([&, k] {
+      yaclib_std::this_thread::sleep_until(t0 + Ns{400});
+      order += static_cast<char>('a' + k);
+      int cur = word.load(std::memory_order_relaxed);
+      while (!word.compare_exchange_weak(cur, cur + 1, std::memory_order_acq_rel, std::memory_order_relaxed)) {
+      }
+      Ev("sleeper " + std::to_string(k) + " saw " + std::to_string(cur));
+    });
+  }
+  for (int k = 0; k < 3; ++k) {
+    ts.emplace_back([&, k] {
+      for (int i = 1; i <= 2 + env.size; ++i) {
+        yaclib_std::this_thread::sleep_until(t0 + Ns{150 * i});  // the same grid for every ticker
+        order += static_cast<char>('A' + k);
+        int before = word.fetch_add(10, std::memory_order_acq_rel);
+        Ev("tick " + std::to_string(k) + "." + std::to_string(i) + " saw " + std::to_string(before));
+      }
+    });
+  }
+  for (auto& t : ts) t.join();
+  std::string r = "sleep order=" + order + " word=" + std::to_string(word.load());
+  Ev(r);
+  env.result += r + ";";
+}
+
 // coroutines hopping between a pool and a strand, awaiting each other
 yaclib::Future<int> CoWorker(yaclib::IExecutor& pool, yaclib::IExecutor& strand, yaclib_std::atomic<int>& word, int k) {
   co_await yaclib::On(pool);
@@ -461,11 +497,13 @@ const std::vector<ProgEntry>& Programs() {
     {"strand", {ProgStrand}, {}},
     {"timed", {ProgTimed}, {}},
     {"coro", {ProgCoro}, {}},
+    {"sleep", {ProgSleep}, {}},
     {"all", {ProgCas, ProgPool, ProgStrand, ProgTimed, ProgCoro}, {}},
     // two-phase programs for the checkpoint / restore experiment (all threads of phase 1 are joined at the checkpoint)
     {"mixA", {ProgCas, ProgPool}, {ProgStrand, ProgTimed, ProgCas}},
     {"mixB", {ProgTimed, ProgStrand}, {ProgCoro, ProgPool, ProgCas}},
     {"mixC", {ProgCoro}, {ProgCas, ProgTimed, ProgStrand, ProgPool}},
+    {"mixD", {ProgCas}, {ProgSleep, ProgCas, ProgTimed}},
   };
   return kPrograms;
 }
@@ -485,6 +523,10 @@ struct Config {
   std::uint32_t state = 0;
   int quarantine = 1;
   int warm = 0;  // rec: run a program that draws numbers BEFORE SetSeed (former F3, kept armed)
+  int apply = 1;     // 0: do NOT re-apply the fault configuration (it was applied by an earlier line of the process): only
+                     //    SetSeed + SetInjectorState precede the run, which is all the property asks for
+  int frag = 0;      // bit p set: fragment the heap before pass p (fiber objects then do not come in ascending order)
+  int ckextra = 0;   // rec: extra injection points before the checkpoint (walks the checkpoint through the injector period)
 };
 
 bool ParseConfig(const std::string& line, Config& c) {
@@ -509,6 +551,9 @@ bool ParseConfig(const std::string& line, Config& c) {
     else if (k == "state") c.state = static_cast<std::uint32_t>(std::strtoul(v.c_str(), nullptr, 10));
     else if (k == "quarantine") c.quarantine = std::atoi(v.c_str());
     else if (k == "warm") c.warm = std::atoi(v.c_str());
+    else if (k == "apply") c.apply = std::atoi(v.c_str());
+    else if (k == "frag") c.frag = std::atoi(v.c_str());
+    else if (k == "ckextra") c.ckextra = std::atoi(v.c_str());
     else return false;
   }
   return true;
@@ -521,6 +566,25 @@ void ApplyFaultConfig(const Config& c) {
   yaclib::fiber::SetFaultTickLength(c.tick);
   yaclib::fiber::SetFaultRandomListPick(c.pick);
   yaclib::fiber::SetHardwareConcurrency(4);  // the default reads the machine
+}
+
+// Leave free holes of (roughly) fiber-object size in the heap, freed in a scrambled order and kept apart by small live
+// blocks, so that the allocator hands the next fiber objects out in an order that is not their creation order — the
+// normal state of a long-running test binary.  Nothing in a reproducible run may depend on it.
+void FragmentHeap(unsigned salt) {
+  std::mt19937_64 g{0x9e3779b97f4a7c15ULL ^ salt};
+  std::vector<void*> holes;
+  std::vector<std::size_t> sizes = {sizeof(yaclib::detail::fiber::Fiber<void (*)()>), 1536, 2048, 2304, 2560, 3072, 4096, 640, 1024};
+  for (int round = 0; round < 40; ++round) {
+    for (auto sz : sizes) {
+      holes.push_back(std::malloc(sz + 8 * (g() % 8)));
+      volatile char* keep = static_cast<char*>(std::malloc(24 + g() % 64));  // leaked separator: no coalescing
+      if (keep != nullptr) keep[0] = 1;
+    }
+  }
+  for (std::size_t i = holes.size(); i > 1; --i) std::swap(holes[i - 1], holes[g() % i]);
+  for (std::size_t i = 0; i < holes.size(); ++i)
+    if (i % 5 != 0) std::free(holes[i]);  // every fifth stays live
 }
 
 std::string gDumpDir;
@@ -569,8 +633,9 @@ void RunPlain(const Config& c) {
     std::printf("error %s unknown program\n", c.key.c_str());
     return;
   }
-  ApplyFaultConfig(c);
+  if (c.apply != 0) ApplyFaultConfig(c);
   for (int pass = 0; pass < c.passes; ++pass) {
+    if (((c.frag >> pass) & 1) != 0) FragmentHeap(static_cast<unsigned>(pass + 1));
     // what has to be reset between two runs in one process (everything else is either per-Scheduler or only a
     // process-global *counter* whose deltas / relative values are compared)
     if (pass == 0 || c.reset == "seed+state" || c.reset == "seed") yaclib::SetSeed(c.seed);
@@ -624,6 +689,7 @@ void RunRecord(const Config& c) {
   std::uint64_t rand_ck = 0, inj_ck = 0;
   InScheduler(c, [&] {
     for (auto p : prog->phase1) p(env);
+    for (int i = 0; i < c.ckextra; ++i) yaclib::InjectFault();  // move the checkpoint through the injector period
     // ---- checkpoint: only the root fiber exists
     auto base = Probe();
     auto count = yaclib::fiber::GetFaultRandomCount();  // exactly what the API reports (SetSeed reset it: f49f13c)
@@ -768,7 +834,7 @@ int Pure(std::uint64_t vseed) {
   for (int round = 0; round < 40; ++round) {
     std::uint32_t seed = static_cast<std::uint32_t>(gen() % 100000);
     std::uint32_t freq = static_cast<std::uint32_t>(std::vector<int>{1, 2, 3, 5, 16, 100}[gen() % 6]);
-    std::uint32_t state0 = static_cast<std::uint32_t>(gen() % (2 * freq + 1));
+    std::uint32_t state0 = round % 4 == 0 ? freq : static_cast<std::uint32_t>(gen() % (2 * freq + 1));  // == freq: next point yields
     int calls = 60;
     yaclib::SetSeed(seed);
     yaclib::SetFaultFrequency(freq);
@@ -784,6 +850,40 @@ int Pure(std::uint64_t vseed) {
     auto used = yaclib::fiber::GetFaultRandomCount() - c0;
     std::printf("NI freq=%u state=%u calls=%d raws=%s = %s used=%llu\n", freq, state0, calls, Join(Raws(seed, used)).c_str(),
                 out.c_str(), static_cast<unsigned long long>(used));
+  }
+  yaclib::SetFaultFrequency(16);
+  // --- GetRandNumber with mixed arguments, max = 1 included (one engine output per call, whatever max is)
+  for (int round = 0; round < 30; ++round) {
+    std::uint32_t seed = static_cast<std::uint32_t>(gen() % 100000);
+    int calls = static_cast<int>(5 + gen() % 30);
+    yaclib::SetSeed(seed);
+    std::vector<std::uint64_t> maxs, outs;
+    for (int i = 0; i < calls; ++i) {
+      std::uint64_t m = gen() % 3 == 0 ? 1 : 1 + gen() % 20;
+      maxs.push_back(m);
+      outs.push_back(yaclib::detail::GetRandNumber(m));
+    }
+    auto used = yaclib::fiber::GetFaultRandomCount();
+    // the engine position afterwards: the next five outputs
+    std::vector<std::uint64_t> next;
+    for (int i = 0; i < 5; ++i) next.push_back(yaclib::detail::GetRandNumber(1000003));
+    std::printf("RN maxs=%s raws=%s = %s next=%s used=%llu\n", Join(maxs).c_str(), Join(Raws(seed, used + 5)).c_str(),
+                Join(outs).c_str(), Join(next).c_str(), static_cast<unsigned long long>(used));
+  }
+  // --- SetInjectorState / GetInjectorState round trip: every state 0 .. frequency + 2 (state == frequency is "the next
+  //     injection point yields") and the decision that follows
+  for (std::uint32_t freq : {1u, 2u, 4u, 16u}) {
+    yaclib::SetFaultFrequency(freq);
+    for (std::uint32_t st = 0; st <= freq + 2; ++st) {
+      yaclib::SetSeed(7);
+      yaclib::fiber::SetInjectorState(st);
+      auto got = yaclib::fiber::GetInjectorState();
+      auto before = yaclib::GetInjectedCount();
+      yaclib::InjectFault();
+      bool inj = yaclib::GetInjectedCount() != before;
+      std::printf("SS freq=%u state=%u raws=%s = %u %d:%u\n", freq, st, Join(Raws(7, 1)).c_str(), got, inj ? 1 : 0,
+                  yaclib::fiber::GetInjectorState());
+    }
   }
   yaclib::SetFaultFrequency(16);
   // --- ShouldFailAtomicWeak
